@@ -11,7 +11,7 @@ EXTENDS DataModel
 \* harness/universe_check.py: the table below must agree with bridge.str_attrs)
 UStrAttr ==
   [s \in {"", "a", "ab", "abc", "b", "1", "2", "07", "1.5", "true", "YES", "no", "x", "zz", "z9",
-          "bb", "A", "c", "d", "kind", "0", "-1", "x_y", "3", "4", "6", "7", "ZZ", "R", "r"} |->
+          "bb", "A", "c", "d", "kind", "0", "-1", "x_y", "3", "4", "6", "7", "ZZ", "R", "r", "q", "Q", "z", "Z", "o", "O", "p", "P", "f", "F"} |->
     CASE s = "1"    -> [int |-> <<"y", 1>>,  float |-> <<"y", 2>>,  boolw |-> "t",    pats |-> <<"pnum">>]
       [] s = "2"    -> [int |-> <<"y", 2>>,  float |-> <<"y", 4>>,  boolw |-> "none", pats |-> <<"pnum">>]
       [] s = "0"    -> [int |-> <<"y", 0>>,  float |-> <<"y", 0>>,  boolw |-> "f",    pats |-> <<"pnum">>]
@@ -30,6 +30,9 @@ UStrAttr ==
       [] s = "abc"  -> [int |-> <<"n", 0>>,  float |-> <<"n", 0>>,  boolw |-> "none", pats |-> <<"pa", "pab">>]
       [] s = "zz"   -> [int |-> <<"n", 0>>,  float |-> <<"n", 0>>,  boolw |-> "none", pats |-> <<"pz">>]
       [] s = "z9"   -> [int |-> <<"n", 0>>,  float |-> <<"n", 0>>,  boolw |-> "none", pats |-> <<"pz">>]
+      [] s = "z"    -> [int |-> <<"n", 0>>,  float |-> <<"n", 0>>,  boolw |-> "none", pats |-> <<"pz">>]
+      [] s = "f"    -> [int |-> <<"n", 0>>,  float |-> <<"n", 0>>,  boolw |-> "f",    pats |-> <<>>]
+      [] s = "F"    -> [int |-> <<"n", 0>>,  float |-> <<"n", 0>>,  boolw |-> "f",    pats |-> <<>>]
       [] OTHER      -> [int |-> <<"n", 0>>,  float |-> <<"n", 0>>,  boolw |-> "none", pats |-> <<>>]]
 
 TInt   == TPrim("int")
@@ -112,6 +115,9 @@ UClasses ==
    \* a regular field whose external name matches the pattern of a pattern-properties field
    PM   |-> Cls("dataclass", << [F("a", TStr) EXCEPT !.alias = "zz"],
                                 [FD("z", TMap(TStr, TInt), VDict(<<>>)) EXCEPT !.props = "pat", !.pat = "pz", !.dk = "fac"] >>),
+   \* a pattern-properties field whose own name does not match its pattern, no additional-properties field
+   PQ   |-> Cls("dataclass", << F("a", TInt),
+                                [FD("q", TMap(TStr, TInt), VDict(<<>>)) EXCEPT !.props = "pat", !.pat = "pz", !.dk = "fac"] >>),
    UF   |-> Cls("dataclass", << F("u", TUnion(<<TInt, TEnum("ES")>>)), FD("l", TUnion(<<TEnum("EI"), TStr>>), DStr("s")) >>),
    EF   |-> Cls("dataclass", << F("e", TEnum("EI")), FD("l", TLit(<<DStr("a"), DInt(2)>>), DStr("a")) >>)]
 
@@ -124,7 +130,7 @@ UAliasers ==
                 <<"l", "L">>, <<"s", "S">>, <<"x", "X">>, <<"z", "Z">>, <<"o", "O">>, <<"p", "P">>,
                 <<"f", "F">>, <<"w", "W">>, <<"t", "T">>, <<"u", "U">>, <<"type", "TYPE">>, <<"kind", "KIND">>,
                 <<"m1", "M1">>, <<"mm", "MM">>, <<"m3", "M3">>, <<"m4", "M4">>, <<"n", "N">>, <<"knd", "KND">>,
-                <<"Foo", "FOO">>, <<"bar", "BAR">>, <<"foo", "FOO2">>, <<"r", "R">>, <<"zz", "ZZ">>, <<"back", "BACK">> >>]
+                <<"Foo", "FOO">>, <<"bar", "BAR">>, <<"foo", "FOO2">>, <<"r", "R">>, <<"zz", "ZZ">>, <<"back", "BACK">>, <<"q", "Q">> >>]
 
 Opt(addl, fbd, coerce, ali) == [addl |-> addl, fbd |-> fbd, coerce |-> coerce, ali |-> UAliasers[ali], aliname |-> ali,
                                 impl |-> FALSE, dev |-> {}, setuniq |-> FALSE]
@@ -288,7 +294,9 @@ Cand(ctx, T, n) ==
                           ELSE IF f.props # "no" THEN sub(f.type.vt)
                           ELSE PickSome(ValidAtoms(ctx, FType(f)), 1) \cup PickSome(InvalidAtoms(ctx, FType(f)), 1)
                                \cup (IF n > 0 /\ f.type.k \notin {"prim"} THEN PickSome(Cand(ctx, FType(f), n - 1), W) ELSE {})
-             allKeys == SetToSeq(UNION {keysOf(fs[i]) : i \in DOMAIN fs} \cup {"zz"})
+             \* ... and the own names of the aggregate fields, which are not properties of the object
+             aggNames == {Ext(ctx, fs[i]) : i \in {j \in DOMAIN fs : fs[j].flat \/ fs[j].props # "no"}}
+             allKeys == SetToSeq(UNION {keysOf(fs[i]) : i \in DOMAIN fs} \cup {"zz"} \cup aggNames)
              choices(key) ==
                LET owners == {i \in DOMAIN fs : key \in keysOf(fs[i])} IN
                IF owners = {} THEN {<<>>, <<<<key, DInt(1)>>>>}
